@@ -23,8 +23,9 @@ func (e *Env) RNilFile() {
 		if fd.Body == nil || isRestorePath(fd) {
 			continue
 		}
-		if fd.Name.Name == "Load" {
-			// frozen: files come from go/packages together with their FileSet; not a parse entry point of C15
+		if strings.HasSuffix(e.Prog.File(fd.Pos()), "decorator/load.go") {
+			// frozen: the files handled in load.go come from go/packages together with their
+			// FileSet; Load is not a parse entry point of C15
 			continue
 		}
 		var stack []ast.Node
@@ -352,8 +353,14 @@ func (e *Env) RIndex() {
 						_ = arr // constant index into an array is checked by the compiler
 						return true
 					}
+					if e.lenGuarded(fd, x, x.X, types.ExprString(x.Index)) {
+						return true // S[k] where the path condition has len(S) > k
+					}
 					add("const", x.Pos(), x)
 				case isLast(x.X, x.Index):
+					if e.lenGuarded(fd, x, x.X, "0") {
+						return true // S[len(S)-1] where the path condition has len(S) > 0
+					}
 					add("last", x.Pos(), x)
 				default:
 					if id, ok := x.Index.(*ast.Ident); ok && rangeKey[info.Uses[id]] == types.ExprString(x.X) {
@@ -1032,4 +1039,53 @@ func (e *Env) RDeadAppend() {
 	}
 	e.Run.Analysed("self-appends to local slices", n)
 	e.Run.Floor("R-LOST", "self-appends to local slices", n, 5)
+}
+
+// lenGuarded: the path condition of at (inside fd) has a conjunct that makes len(S) > k: for k = 0
+// `len(S) > 0`, `len(S) != 0`, `len(S) >= 1`; in general `len(S) > k` or `len(S) >= k+1`.
+func (e *Env) lenGuarded(fd *ast.FuncDecl, at ast.Node, base ast.Expr, k string) bool {
+	pkg := e.Prog.Pkg(load.PkgDecorator)
+	c := e.Sib.Ctx[load.PkgDecorator]
+	_ = pkg
+	// innermost function body that contains at
+	body := fd.Body.List
+	ast.Inspect(fd.Body, func(m ast.Node) bool {
+		if fl, ok := m.(*ast.FuncLit); ok && fl.Body.Pos() <= at.Pos() && at.End() <= fl.Body.End() {
+			body = fl.Body.List
+		}
+		return true
+	})
+	cond, ok := pathCond(c, body, at)
+	if !ok {
+		return false
+	}
+	l := "len(" + c.ExprStr(base) + ")"
+	kn := 0
+	fmt.Sscan(k, &kn)
+	want := map[string]bool{
+		fmt.Sprintf("%s > %d", l, kn):    true,
+		fmt.Sprintf("%s >= %d", l, kn+1): true,
+	}
+	if kn == 0 {
+		want[l+" != 0"] = true
+	}
+	var conj func(s string) bool
+	conj = func(s string) bool {
+		for _, cj := range splitTop(s, " && ") {
+			cj = strings.TrimSpace(cj)
+			for strings.HasPrefix(cj, "(") && strings.HasSuffix(cj, ")") && balanced(cj[1:len(cj)-1]) {
+				cj = cj[1 : len(cj)-1]
+				if len(splitTop(cj, " && ")) > 1 {
+					if conj(cj) {
+						return true
+					}
+				}
+			}
+			if want[cj] {
+				return true
+			}
+		}
+		return false
+	}
+	return conj(cond)
 }
